@@ -13,7 +13,9 @@ RULE = ("Hypothesis-generated trees (depth 1..3, fan-out 1..3) of CopyStreamResu
         "TimestampingStreamResult / StreamToQueue over recording sinks and StreamFailFast leaves, fed "
         "generated event sequences (tags as set/frozenset/None, leading arguments positional or keyword, "
         "defaults explicit or omitted); every sink's log is compared with a pure functional model of its "
-        "path, argument objects are snapshotted before/after each call. Non-trivial: fan-out >= 2 below a "
+        "path, argument objects are snapshotted before/after each call; supplied timestamps include a non-UTC "
+        "one and one far in the future, filled-in timestamps must lie in the real-clock window of the case, and "
+        "the process time zone (TZ) is a generated dimension. Non-trivial: fan-out >= 2 below a "
         "StreamTagger, or tags supplied as set/frozenset to a tree containing a tagger, or a queue in the "
         "path; distinct = distinct canonical (tree, events).")
 ASSUMPTIONS = [
@@ -52,7 +54,7 @@ def _has(tree, kinds):
 TREE = st.one_of(node(1), node(2), node(3))
 NODE1 = node(1)
 ROUTE11 = st.one_of(streams.ROUTE, st.just(""))       # "" is not None: StreamToQueue documents "otherwise it is prefixed"
-EVENTS = st.lists(streams.event(routes=ROUTE11, stamps=(None, 0, 1, 2, "tz", "tz")), min_size=1, max_size=8)
+EVENTS = st.lists(streams.event(routes=ROUTE11, stamps=(None, None, 0, 1, 2, "tz", "tz", "future")), min_size=1, max_size=8)
 
 
 @st.composite
@@ -67,7 +69,8 @@ def s_case(draw):
         calls.append({"ev": ev, "npos": draw(st.integers(0, 2 if restricted else 9)),
                       "omit_defaults": draw(st.booleans()),
                       "reuse_set": draw(st.booleans())})       # the caller refills one scratch set instead of building a new one
-    return {"tree": tree, "calls": calls, "bracket": draw(st.sampled_from(["run", "run", "none"]))}
+    return {"tree": tree, "calls": calls, "bracket": draw(st.sampled_from(["run", "run", "none"])),
+            "TZ": draw(st.sampled_from(["UTC", "JST-9", "EST5EDT", "UTC"]))}     # the process's local time zone
 
 
 class FailFastLeaf:
@@ -152,6 +155,22 @@ DEFAULTS = dict(test_id=None, test_status=None, test_tags=None, runnable=True, f
 
 
 def run_case(spec):
+    import os
+    import time
+    old = os.environ.get("TZ")
+    os.environ["TZ"] = spec.get("TZ", "UTC")
+    time.tzset()
+    try:
+        return _run_case(spec)
+    finally:
+        if old is None:
+            del os.environ["TZ"]
+        else:
+            os.environ["TZ"] = old
+        time.tzset()
+
+
+def _run_case(spec):
     vs = []
     sinks, queues, ffs = [], [], []
     root = build(spec["tree"], sinks, queues, [], ffs)
@@ -239,7 +258,7 @@ def run_case(spec):
     nt = fan_below_tagger(spec["tree"]) or (has_tagger and settags) or _has(spec["tree"], ("queue",))
     labels = ["tagger" if has_tagger else "no-tagger", "queue" if _has(spec["tree"], ("queue",)) else "no-queue",
               "ts" if _has(spec["tree"], ("ts",)) else "no-ts", "sinks=%d" % len(sinks), "failfast=%d" % len(ffs),
-              "settags" if settags else "no-settags"]
+              "settags" if settags else "no-settags", "TZ=" + spec.get("TZ", "UTC")]
     return Case(vs, nt, labels, {"sinks": len(sinks)})
 
 
